@@ -783,6 +783,10 @@ func (fg *FuncGen) siteAsserts(v *ssa.Call, callee *ssa.Function, args []TTerm) 
 		if sa.Callee != name || (sa.N != 0 && sa.N != ord) {
 			continue
 		}
+		if fg.siteUsed == nil {
+			fg.siteUsed = map[*SiteAssert]bool{}
+		}
+		fg.siteUsed[sa] = true
 		env := fg.funcEnv(fg.st, State{}, nil)
 		for i, a := range args {
 			env.vars[fmt.Sprintf("arg%d", i)] = a
@@ -807,6 +811,76 @@ func (fg *FuncGen) siteAsserts(v *ssa.Call, callee *ssa.Function, args []TTerm) 
 		if sa.Assume {
 			fg.assume(t.S)
 			fg.assumed = append(fg.assumed, sa.C.Pos+": "+sa.C.Text)
+			continue
+		}
+		label := sa.C.Label
+		if label == "" {
+			label = "site"
+		}
+		fg.obl("assert", fmt.Sprintf("at.%s.%d.%s", name, ord, label), v.Pos(), pick(sa.C.Tags, fg.funcTags()), t.S, sa.C.Text)
+	}
+}
+
+// allocSiteAsserts emits the `at new:T#n assert` obligations: assertions on the state in which the function
+// itself allocates a value of the named type T (n counts the allocations of T in source order; * = every one).
+func (fg *FuncGen) allocSiteAsserts(v *ssa.Alloc, tname string) {
+	if fg.c == nil || len(fg.c.Sites) == 0 {
+		return
+	}
+	name := "new:" + tname
+	found := false
+	for _, sa := range fg.c.Sites {
+		if sa.Callee == name {
+			found = true
+		}
+	}
+	if !found {
+		return
+	}
+	var all []*ssa.Alloc
+	for _, b := range fg.fn.Blocks {
+		for _, in := range b.Instrs {
+			if a, ok := in.(*ssa.Alloc); ok {
+				if nt, ok := a.Type().(*types.Pointer).Elem().(*types.Named); ok && nt.Obj().Name() == tname {
+					all = append(all, a)
+				}
+			}
+		}
+	}
+	sort.Slice(all, func(i, j int) bool { return all[i].Pos() < all[j].Pos() })
+	ord := 0
+	for i, a := range all {
+		if a == v {
+			ord = i + 1
+		}
+	}
+	for _, sa := range fg.c.Sites {
+		if sa.Callee != name || (sa.N != 0 && sa.N != ord) {
+			continue
+		}
+		if fg.siteUsed == nil {
+			fg.siteUsed = map[*SiteAssert]bool{}
+		}
+		fg.siteUsed[sa] = true
+		env := fg.funcEnv(fg.st, State{}, nil)
+		base := env.lookup
+		env.lookup = func(n string) (TTerm, bool) {
+			if base != nil {
+				if t, ok := base(n); ok {
+					return t, true
+				}
+			}
+			if val := fg.resolveInBlock(n, v.Block(), v); val != nil {
+				return fg.valueOf(val), true
+			}
+			return TTerm{}, false
+		}
+		t := env.Tr(sa.C.E)
+		if fg.clauseFailed(sa.C) {
+			continue
+		}
+		if sa.Assume {
+			fg.unsupp("`at %s assume` is not allowed (allocation sites only take assertions)", name)
 			continue
 		}
 		label := sa.C.Label
